@@ -374,6 +374,25 @@ func (w *World) BuildTx(t *Tx, forCheck bool) *BuiltTx {
 		w.Class("tx.with-explicit-fee-payer")
 	}
 	bt.Signers = signers
+	if bt.Expect.Verdict == MustReject && bt.Expect.Why == "message names an account that did not sign the transaction" && t.Wrap == WrapTop && fault == lab.FaultNone {
+		// per message, "named != the message's own signer" - but the named account may sign the transaction anyway
+		// (it is the signer of another message) and the message's own signer may be a required signer too (the explicit
+		// fee payer): then every named account signed and every signature is required, and the reason does not apply
+		in := map[string]bool{}
+		for _, sg := range signers {
+			in[sg.Key()] = true
+		}
+		all := true
+		for _, o := range bt.Ops {
+			if !in[o.Named.Key()] {
+				all = false
+			}
+		}
+		if all {
+			bt.Expect = Expect{Verdict: Either}
+			w.Class("tx.named-account-signs-through-another-message")
+		}
+	}
 	if len(signers) > 0 {
 		bt.Payer = signers[0]
 	}
